@@ -110,6 +110,49 @@ def build_traces(path, tier, seed):
              "cols": [enc_seq(mat[:, c]) for c in range(mat.shape[1])] if mat.shape[1] == len(ff) - 1 else []},
             {"kind": "matrix", "default_targets": True, "shape": list(mat.shape), "band": band})
         add({"kind": "rel", "clause": "MatrixEqualsDirect", "x": enc_seq(direct), "y": enc_seq(via), "f": enc(1.0)}, {"kind": "rel", "law": "MatrixEqualsDirect (default targets)", "band": band})
+    # spectra given on axes of the caller's own (octave bands, log-spaced, irregular; no zero-frequency bin, the second frequency
+    # well above twice the first), and whole-number targets held in integer types / python lists
+    for j in range(8 if tier == "quick" else 40):
+        kind_ = j % 4
+        if kind_ == 0:
+            ff = np.array([0.1, 0.25, 0.5, 1.0, 2.5, 5.0, 10.0, 25.0])
+        elif kind_ == 1:
+            ff = float(rng.uniform(0.05, 0.5)) * float(rng.uniform(2.2, 3.5)) ** np.arange(int(rng.integers(4, 10)))
+        elif kind_ == 2:
+            ff = np.cumsum(rng.uniform(0.05, 3.0, size=int(rng.integers(5, 40))))
+            ff[1:] += 2.0 * ff[0]
+        else:
+            ff = np.array(eqsig.AccSignal(rng.standard_normal(64), 0.01).fa_freqs)
+        am = np.abs(rng.standard_normal(len(ff))) + 0.01
+        am[0 if ff[0] > 0 else 1] *= 10.0                      # the lowest genuine bin carries the largest amplitude
+        band = float([40, 5, 100, 20][(j // 4) % 4])
+        if j % 2:
+            tg_f = np.array([1.0, 2.0, 5.0, 10.0, 20.0])
+            tg = [tg_f.astype(np.int64), tg_f.astype(np.int16), tg_f.astype(np.int32), tg_f.astype(np.uint8)][(j // 2) % 4]      # (arrays: the functions index them)
+        else:
+            tg_f = np.array([ff[0 if ff[0] > 0 else 1], float(ff[0 if ff[0] > 0 else 1]) * 1.3, float(np.sqrt(ff[1] * ff[-1])), float(ff[-1])])
+            tg = tg_f
+        with warnings.catch_warnings():
+            warnings.simplefilter("ignore")
+            out = fq.calc_smooth_fa_spectrum(ff, am, tg, band=band)
+            mat = np.asarray(fq.calc_smoothing_matrix_konno_1998(ff, np.asarray(tg), band=band))
+        add({"kind": "smooth", "freqs": enc_seq(ff), "amps": enc_seq(am), "targets": enc_seq(tg_f), "band": enc(band), "out": enc_seq(out)},
+            {"kind": "smooth", "fn": "calc_smooth_fa_spectrum(caller's axis / whole-number targets)", "axis": ["octave bands", "log-spaced", "irregular", "fft grid"][kind_],
+             "nfreq": len(ff), "band": band, "targets": repr(tg)[:80]})
+        add({"kind": "matrix", "freqs": enc_seq(ff), "targets": enc_seq(tg_f), "band": enc(band), "cols": [enc_seq(mat[:, c]) for c in range(mat.shape[1])] if mat.ndim == 2 else []},
+            {"kind": "matrix", "axis": ["octave bands", "log-spaced", "irregular", "fft grid"][kind_], "nfreq": len(ff), "band": band, "targets": repr(tg)[:80]})
+        if j % 2:
+            o_ = eqsig.AccSignal(rng.standard_normal(128), 0.01)
+            with warnings.catch_warnings():
+                warnings.simplefilter("ignore")
+                if j % 4 == 1:
+                    o_.gen_smooth_fa_spectrum(smooth_fa_freqs=tg, band=band)
+                else:
+                    o_.smooth_fa_freqs = tg
+                    band = 40.0
+                out_o = np.array(o_.smooth_fa_spectrum)
+            add({"kind": "smooth", "freqs": enc_seq(o_.fa_freqs), "amps": enc_seq(np.abs(o_.fa_spectrum)), "targets": enc_seq(tg_f), "band": enc(band), "out": enc_seq(out_o)},
+                {"kind": "smooth", "fn": "Signal.smooth_fa_spectrum(whole-number targets)", "band": band, "targets": repr(tg)[:80]})
     nrec = 24 if tier == "quick" else 150
     for i in range(nrec):
         n = int([64, 100, 256, 300, 1000, 2048][i % 6]) if tier == "thorough" else int([50, 64, 100, 200, 256, 130][i % 6])
